@@ -20,7 +20,14 @@ Limit(k) == CASE k = "cols" -> 32          \* MaxCols
               [] k = "tname" -> 32         \* _Validation.Table width (the packing limit is 60)
               [] k = "cname" -> 32         \* _Validation.Column width
               [] k = "sname" -> 62         \* 31 UTF-16 units of two packed characters
+\* exact accounting at the count limit (Pool!PoolWF on the entries of one string, decoded from the saved bytes):
+\* every entry's count is the number of cells referring to it, no count exceeds 65535, an unused entry is empty
+GoodAccounting(e) ==
+  /\ "error" \notin DOMAIN e
+  /\ \A k \in 1..Len(e.entries) : e.entries[k].rc = e.entries[k].cells /\ e.entries[k].rc <= 65535
+  /\ e.stale = 0
 Good(e) ==
+  IF e.limit = "refcount" THEN GoodAccounting(e) ELSE
   /\ e.res \in {"Ok", "Err"}                                   \* never a panic
   /\ (e.n <= Limit(e.limit)) = (e.res = "Ok")                  \* inside the limit accepted, beyond refused
   /\ e.same                                                    \* refused: unchanged; accepted: round-trips
@@ -28,7 +35,8 @@ Good(e) ==
 VARIABLE l
 Init == l = 1
 Next == /\ l <= Len(Rec) /\ l' = l + 1
-        /\ (Good(Rec[l]) \/ PrintT(<<"STEP-REJECTED", l, <<Rec[l].limit, Rec[l].how, Rec[l].n, Rec[l].res, Rec[l].same, Rec[l].reopen>>>>))
+        /\ (Good(Rec[l]) \/ PrintT(<<"STEP-REJECTED", l, IF Rec[l].limit = "refcount" THEN <<Rec[l].limit, Rec[l].how, Rec[l].entries, Rec[l].stale>>
+                                                              ELSE <<Rec[l].limit, Rec[l].how, Rec[l].n, Rec[l].res, Rec[l].same, Rec[l].reopen>>>>))
 Spec == Init /\ [][Next]_l
 Accepted == IF TLCGet("stats").diameter - 1 = Len(Rec) THEN TRUE
             ELSE Print(<<"TRACE-NOT-CONSUMED", TLCGet("stats").diameter, "of", Len(Rec)>>, FALSE)
